@@ -71,6 +71,15 @@ func (e *Env) rv(v Val) Val {
 			}
 		}
 	}
+	if _, isSl := v.GoT.Underlying().(*types.Slice); isSl && !strings.Contains(t, "q!") && e.g.lines != nil {
+		if e.g.rangeSeen == nil {
+			e.g.rangeSeen = map[string]bool{}
+		}
+		if !e.g.rangeSeen[t] {
+			e.g.rangeSeen[t] = true
+			e.g.assume("(validslice " + t + ")") // memory is well typed: slice headers are valid
+		}
+	}
 	return Val{T: t, Sort: e.u().sortOf(v.GoT), GoT: v.GoT}
 }
 
